@@ -177,6 +177,47 @@ def refusal_returns(fn):
                         src = x
             if src and any(path_matches(src[1], n) for n in REFUSAL_SOURCES):
                 out.append((b, None, "?%s" % src[1].split("::")[-1], src))
+                continue
+            # `x.map_err(|_| Error::<refusal>)?` / `x.ok_or(Error::<refusal>)?`: the error built at this exit is a refusal
+            v = None
+            for (gb, gi, g) in all_guards(fn):
+                if g.kind == "variant" and g.variant == "Break" and fn.succ(gb)[gi][0] == b and g.term[0] == "call" and g.term[1] and g.term[1].endswith("Try::branch"):
+                    v = _converted_variant(fn, g.term[2][0])
+            if v in REFUSALS:
+                out.append((b, None, "?->%s" % v, src))
+    return out
+
+
+def _converted_variant(fn, x):
+    """Error variant a `map_err(closure)` / `ok_or(const)` wrapper produces, or None."""
+    if x[0] != "call" or not x[1]:
+        return None
+    if x[1].endswith("::map_err") and len(x[2]) == 2:
+        f = x[2][1]
+        if f[0] == "agg" and f[1] == "Closure":
+            try:
+                c = fn.facts.closure(f[2])
+            except KeyError:
+                return None
+            vs = {var for (b, i, var, term) in err_returns_plain(c)}
+            return vs.pop() if len(vs) == 1 else None
+        if f[0] == "fn" and f[1]:
+            return f[1].split("::")[-1]
+    if (x[1].endswith("::ok_or") or x[1].endswith("::ok_or_else")) and len(x[2]) == 2:
+        e = x[2][1]
+        if e[0] == "agg" and e[2] and "Error::" in e[2]:
+            return e[2].split("::")[-1]
+    return None
+
+
+def err_returns_plain(c):
+    """(block, idx, variant, term) for `_0 = Error::V ..` assignments of a closure body (it returns the error itself)."""
+    out = []
+    for b, i, s in c.stmts():
+        if s["k"] == "Assign" and s["p"]["l"] == 0 and not s["p"]["proj"]:
+            t = c.term_of_rvalue(s["rv"], b)
+            if t[0] == "agg" and t[2] and "Error::" in t[2]:
+                out.append((b, i, t[2].split("::")[-1], t))
     return out
 
 
